@@ -55,7 +55,8 @@ QUALS = {"const", "volatile", "struct", "class", "enum", "typename", "restrict",
 
 
 def tokenize(s):
-    s = s.replace("(anonymous namespace)::", "").replace("(lambda at", "lambda_at(")
+    s = s.replace("(anonymous namespace)::", "")
+    s = re.sub(r"\(lambda at [^()]*\)", "vf_lambda", s)  # closure types: modelled like std::function (struct vf_fn)
     pos, out = 0, []
     while pos < len(s):
         m = _tok_re.match(s, pos)
@@ -139,9 +140,9 @@ class _P:
             elif tok in ("true", "false"):
                 args.append(T("lit", name=self.next()))
             elif tok == "&":
-                # non-type argument: address of a (member) entity, e.g. member_hook<T, Hook, &T::hook_>
+                # pointer-to-member / address constant as template argument: &Class::member
                 self.next()
-                args.append(T("lit", name="&" + self.parse_type().name))
+                args.append(T("lit", name="&" + self.parse_name().name))
             else:
                 args.append(self.parse_type())
             tok = self.next()
@@ -270,9 +271,12 @@ def parse(s):
 SMART_PTRS = {"intrusive_ptr", "unique_ptr", "shared_ptr", "weak_ptr"}
 SEQS = {"vector", "deque", "list"}
 SEQ_ITERS = {"__normal_iterator", "_Deque_iterator", "_List_iterator", "_List_const_iterator"}
+# iterators of the map/set models: pointer to the entry (pair) / key
+ASSOC_ITERS = {"_Rb_tree_iterator", "_Rb_tree_const_iterator", "_Node_iterator", "_Node_const_iterator",
+               "_Node_iterator_base"}
 INT_TYPEDEFS = {
     "size_t": "size_t", "std::size_t": "size_t", "ssize_t": "long", "ptrdiff_t": "long", "std::ptrdiff_t": "long",
-    "aid_t": "long", "sg_size_t": "unsigned long", "sg_offset_t": "long",
+    "aid_t": "long", "sg_size_t": "unsigned long long", "sg_offset_t": "long long",
     "uint8_t": "unsigned char", "int8_t": "signed char", "uint16_t": "unsigned short", "int16_t": "short",
     "uint32_t": "unsigned int", "int32_t": "int", "uint64_t": "unsigned long", "int64_t": "long",
     "uintptr_t": "unsigned long", "intptr_t": "long", "std::uint32_t": "unsigned int", "std::uint64_t": "unsigned long",
@@ -307,7 +311,9 @@ class TypeMap:
         self.opt_insts = {}  # tag -> ctype
         self.map_insts = {}  # tag -> (k,v)
         self.set_insts = {}  # tag -> k
+        self.ilist_insts = {}  # tag -> (elem ctype, hook member name)   boost::intrusive::list
         self.used_structs = []  # ordered list of struct tags referenced
+        self.carr_insts = {}  # typedef name -> (elem ctype, N) for pointer-to-array types
 
     def learn(self, sugar, desugared):
         if not sugar or not desugared or sugar == desugared:
@@ -341,7 +347,31 @@ class TypeMap:
 
     def is_seq(self, t):
         t = self.resolve(strip_ref(t))
-        return t.kind == "named" and t.last in SEQS and bool(t.args)
+        return t.kind == "named" and t.last in SEQS and bool(t.args) and not is_intrusive(t)
+
+    def ilist_parts(self, t):
+        """(element type T, hook member name) of boost::intrusive::list<T, member_hook<T, H, &T::m>>,
+        list_impl<mhtraits<T, H, &T::m>, ...> or list_iterator<mhtraits<T, H, &T::m>, const?>; None otherwise"""
+        if t.kind != "named" or not is_intrusive(t) or not t.args:
+            return None
+        tr = None
+        if t.last == "list" and len(t.args) >= 2:
+            tr = t.args[1]
+        elif t.last in ("list_impl", "list_iterator"):
+            tr = t.args[0]
+        if tr is None or tr.kind != "named" or tr.last not in ("member_hook", "mhtraits") or len(tr.args) != 3 or \
+                tr.args[2].kind != "lit" or not tr.args[2].name.startswith("&"):
+            raise Unsupported("boost::intrusive list without a member_hook option: %r" % t)
+        return tr.args[0], tr.args[2].name.split("::")[-1]
+
+    def ilist_ctype(self, t):
+        elem, hook = self.ilist_parts(t)
+        e = self.c(elem)
+        if not e.startswith("struct "):
+            raise Unsupported("intrusive list of non-class %s" % e)
+        tg = self.tag(e) + "__" + hook
+        self.ilist_insts.setdefault(tg, (e, hook))
+        return "struct vf_ilist_" + tg, e
 
     def is_smart_ptr(self, t):
         t = self.resolve(strip_ref(t))
@@ -357,6 +387,12 @@ class TypeMap:
         if k == "ptr":
             if t.to.kind == "func":
                 return "vf_fnptr"
+            if t.to.kind == "array" and t.to.n is not None and str(t.to.n).isdigit():
+                # pointer to array of N T (parameter `T a[][N]`): typedef T vf_carr_T_N[N]; the pointee decays as in C++
+                e = self.c(t.to.to)
+                name = "vf_carr_%s_%s" % (self.tag(e), t.to.n)
+                self.carr_insts[name] = (e, str(t.to.n))
+                return name + "*"
             return self.c(t.to) + "*"
         if k == "array":
             raise Unsupported("array type in this position: %r" % t)
@@ -367,6 +403,8 @@ class TypeMap:
         name = t.name
         if name in ("bool", "_Bool"):
             return "_Bool"
+        if name in ("std::_Bit_reference", "_Bit_reference", "std::vector<bool>::reference"):
+            return "_Bool"  # proxy reference to an element of vector<bool>: the element lvalue of the seq model
         words = name.split(" ")
         if all(w in BUILTIN_WORDS for w in words):
             if name == "auto":
@@ -381,16 +419,31 @@ class TypeMap:
             return "vf_str"
         if last in SMART_PTRS and t.args:
             return self.c(t.args[0]) + "*"
+        if is_intrusive(t):
+            # boost::intrusive::list (member hooks): ordered array of element pointers + "linked" flag in the hook
+            if last in ("list", "list_impl") and t.args:
+                return self.ilist_ctype(t)[0]
+            if last == "list_iterator" and t.args:
+                return self.ilist_ctype(t)[1] + "**"
+            if last in ("list_member_hook", "generic_hook"):
+                self.need_ihook = True
+                return "struct vf_ihook"
+            raise Unsupported("boost::intrusive entity %s" % name)
         if last in SEQS and t.args:
             e = self.c(t.args[0])
             tg = self.tag(e)
             self.seq_insts.setdefault(tg, e)
             return "struct vf_seq_" + tg
+        if last == "reverse_iterator" and t.args and "::" not in name.replace("std::", "", 1):
+            # std::reverse_iterator<It>: the value of its base() iterator; *r is *(base-1), ++r is --base (libmap)
+            return self.c(t.args[0])
         if last in SEQ_ITERS and t.args:
             a0 = t.args[0]
             if last == "__normal_iterator":
                 return self.c(a0)  # already T*
             return self.c(a0) + "*"
+        if last in ASSOC_ITERS and t.args:
+            return self.c(t.args[0]) + "*"
         if last in ("iterator", "const_iterator", "reverse_iterator", "const_reverse_iterator") and "::" in name:
             # std::vector<T>::iterator printed unsugared
             m = re.match(r"(.*)<(.*)>::(const_)?iterator$", name)
@@ -409,7 +462,7 @@ class TypeMap:
             return "struct vf_opt_" + tg
         if last in ("atomic", "__atomic_base") and t.args:
             return self.c(t.args[0])
-        if last == "function" and t.args:
+        if (last == "function" and t.args) or name == "vf_lambda":
             return "struct vf_fn"
         if last == "array" and len(t.args) == 2 and t.args[1].kind == "lit":
             e = self.c(t.args[0])
@@ -453,6 +506,12 @@ class TypeMap:
         if not t.args and re.fullmatch(r"[A-Z]\w*Ptr", last) and last not in self.class_alias:
             # SimGrid convention: XxxPtr = boost::intrusive_ptr<Xxx>
             return self.c(T("named", name=name[:-3])) + "*"
+        if last in ("value_type", "reference", "pointer") and "<" in name:
+            # member types of the map/set iterators: the entry type (first template argument) / pointer to it
+            m = re.match(r"(?:.*?::)?([A-Za-z_]\w*)<(.*)>::(value_type|reference|pointer)$", name)
+            if m and m.group(1) in ASSOC_ITERS:
+                inner = self.c(parse(first_targ(m.group(2))))
+                return inner + ("*" if m.group(3) != "value_type" else "")
         if last in ("reference", "const_reference", "value_type", "_Self", "pointer", "mapped_type", "key_type"):
             raise Unsupported("dependent member type %s (no desugared form)" % name)
         # class type
@@ -470,6 +529,10 @@ class TypeMap:
         if not c.startswith("struct "):
             raise Unsupported("not a class type: %r -> %s" % (t, c))
         return c[len("struct "):]
+
+
+def is_intrusive(t):
+    return t.kind == "named" and bool(t.name) and t.name.startswith("boost::intrusive::")
 
 
 def first_targ(s):
